@@ -365,10 +365,27 @@ func checkPromiseEvents(r *Reporter, p *Prog) {
 		}
 		// Judged on Trigger's graph with the locked section in place, whether that section is a literal
 		// invoked on the spot, a local closure or a named helper.
-		f := newFuncCFG(p, info, fd.Body, key)
 		recvObj := info.Defs[recvIdentOf(fd)]
 		mu := fmt.Sprintf("%s@%d.mutex", recvObj.Name(), recvObj.Pos())
-		held := f.LocksHeld(nil)
+		// the graphs the operation consists of: Trigger itself and, when a part of it runs as the
+		// function handed to a sync.Once (`e.once.Do(func() {...})`: run synchronously, at most once,
+		// with the Once held), that function's body
+		type trigGraph struct {
+			f      *FuncCFG
+			held   func(Point) LockSet
+			inOnce bool
+		}
+		f := newFuncCFG(p, info, fd.Body, key)
+		graphs := []trigGraph{{f, f.LocksHeld(nil), false}}
+		for _, c := range f.Calls(func(c *ast.CallExpr) bool {
+			fn := staticCallee(info, c)
+			return fn != nil && fn.Pkg() != nil && fn.Pkg().Path() == "sync" && funcName(fn) == "Do" && len(c.Args) == 1
+		}) {
+			for _, cb := range callbacksIn(p, info, c.Args[0]) {
+				g := newFuncCFG(p, info, cb.Body, key+"$once")
+				graphs = append(graphs, trigGraph{g, g.LocksHeld(nil), true})
+			}
+		}
 		isSwap := func(n ast.Node) bool {
 			as, ok := n.(*ast.AssignStmt)
 			return ok && len(as.Lhs) == 1 && len(as.Rhs) == 1 && fieldSel(info, as.Lhs[0], "callbacks") && isNil(info, as.Rhs[0])
@@ -377,97 +394,105 @@ func checkPromiseEvents(r *Reporter, p *Prog) {
 			as, ok := n.(*ast.AssignStmt)
 			return ok && len(as.Lhs) == 1 && fieldSel(info, as.Lhs[0], "value")
 		}
-		// the snapshot: Values() of the callback map
-		var snaps []Point
-		for _, c := range f.Calls(func(c *ast.CallExpr) bool {
-			se, ok := ast.Unparen(c.Fun).(*ast.SelectorExpr)
-			return ok && se.Sel.Name == "Values" && len(c.Args) == 0
-		}) {
-			cpt, found := f.PointOf(c)
-			if !found {
-				continue
-			}
-			if strings.HasSuffix(f.KeyAt(ast.Unparen(c.Fun).(*ast.SelectorExpr).X, cpt), ".callbacks") {
-				snaps = append(snaps, cpt)
-			}
-		}
-		// the invocations: calls through a function-typed local (a registered callback)
-		var invocations []Point
-		for _, c := range f.Calls(func(c *ast.CallExpr) bool {
-			id, isId := ast.Unparen(c.Fun).(*ast.Ident)
-			if !isId {
-				return false
-			}
-			v, isVar := info.Uses[id].(*types.Var)
-			if !isVar || v.IsField() {
-				return false
-			}
-			_, isFn := v.Type().Underlying().(*types.Signature)
-			return isFn
-		}) {
-			if f.regionByCall(c) != nil {
-				continue // a local closure that was spliced in, not a registered callback
-			}
-			if cpt, found := f.PointOf(c); found {
-				invocations = append(invocations, cpt)
-			}
-		}
 		var bad []string
-		swaps := f.Find(isSwap)
-		switch {
-		case len(snaps) == 0:
-			bad = append(bad, "no locked snapshot section that swaps the callback map")
-		case len(swaps) == 0:
-			bad = append(bad, "Trigger never swaps the callback map for nil")
-		case len(invocations) == 0:
-			bad = append(bad, "the registered callbacks are never invoked (vacuous)")
-		}
-		for _, sp := range swaps {
-			if held(sp)[mu] < ModeW {
-				bad = append(bad, f.PosOf(sp)+": the callback map is swapped for nil outside the exclusive section")
+		nSnaps, nSwaps, nInv, nAcq := 0, 0, 0, 0
+		for _, tg := range graphs {
+			f, held := tg.f, tg.held
+			// the snapshot: Values() of the callback map
+			var snaps []Point
+			for _, c := range f.Calls(func(c *ast.CallExpr) bool {
+				se, ok := ast.Unparen(c.Fun).(*ast.SelectorExpr)
+				return ok && se.Sel.Name == "Values" && len(c.Args) == 0
+			}) {
+				cpt, found := f.PointOf(c)
+				if !found {
+					continue
+				}
+				if strings.HasSuffix(f.KeyAt(ast.Unparen(c.Fun).(*ast.SelectorExpr).X, cpt), ".callbacks") {
+					snaps = append(snaps, cpt)
+				}
 			}
-		}
-		for _, sn := range snaps {
-			if held(sn)[mu] < ModeW {
-				bad = append(bad, f.PosOf(sn)+": the snapshot of the callbacks is taken outside the exclusive section")
+			// the invocations: calls through a function-typed local (a registered callback)
+			var invocations []Point
+			for _, c := range f.Calls(func(c *ast.CallExpr) bool {
+				id, isId := ast.Unparen(c.Fun).(*ast.Ident)
+				if !isId {
+					return false
+				}
+				v, isVar := info.Uses[id].(*types.Var)
+				if !isVar || v.IsField() {
+					return false
+				}
+				_, isFn := v.Type().Underlying().(*types.Signature)
+				return isFn
+			}) {
+				if f.regionByCall(c) != nil {
+					continue // a local closure that was spliced in, not a registered callback
+				}
+				if cpt, found := f.PointOf(c); found {
+					invocations = append(invocations, cpt)
+				}
 			}
-			// the section that hands the snapshot out also consumes the map (before or after taking it)
-			_, before := f.PathFromEntryAvoiding(sn, isSwap, nil)
-			_, after := f.PathToExitAvoiding(sn, isSwap)
-			if before && after {
-				bad = append(bad, "the callbacks are handed out without swapping the map for nil: a second Trigger (or a late OnTrigger) runs them again / registers into a consumed map")
+			swaps := f.Find(isSwap)
+			nSnaps, nSwaps, nInv = nSnaps+len(snaps), nSwaps+len(swaps), nInv+len(invocations)
+			for _, sp := range swaps {
+				if held(sp)[mu] < ModeW {
+					bad = append(bad, f.PosOf(sp)+": the callback map is swapped for nil outside the exclusive section")
+				}
+			}
+			for _, sn := range snaps {
+				if held(sn)[mu] < ModeW {
+					bad = append(bad, f.PosOf(sn)+": the snapshot of the callbacks is taken outside the exclusive section")
+				}
+				// the section that hands the snapshot out also consumes the map (before or after taking it)
+				_, before := f.PathFromEntryAvoiding(sn, isSwap, nil)
+				_, after := f.PathToExitAvoiding(sn, isSwap)
+				if before && after {
+					bad = append(bad, "the callbacks are handed out without swapping the map for nil: a second Trigger (or a late OnTrigger) runs them again / registers into a consumed map")
+				}
+				if t != "Event" {
+					_, before := f.PathFromEntryAvoiding(sn, isValueStore, nil)
+					_, after := f.PathToExitAvoiding(sn, isValueStore)
+					if before && after {
+						bad = append(bad, "the triggered value is not stored in the section that consumes the callbacks: a late OnTrigger reads a nil value")
+					}
+				}
 			}
 			if t != "Event" {
-				_, before := f.PathFromEntryAvoiding(sn, isValueStore, nil)
-				_, after := f.PathToExitAvoiding(sn, isValueStore)
-				if before && after {
-					bad = append(bad, "the triggered value is not stored in the section that consumes the callbacks: a late OnTrigger reads a nil value")
+				for _, vp := range f.Find(isValueStore) {
+					if held(vp)[mu] < ModeW {
+						bad = append(bad, f.PosOf(vp)+": the triggered value is stored outside the exclusive section")
+					}
+				}
+			}
+			// one critical section: snapshot, swap and value belong together
+			nAcq += len(f.Find(func(n ast.Node) bool {
+				c, ok := n.(*ast.CallExpr)
+				if !ok {
+					return false
+				}
+				op, path := lockOp(info, c)
+				return (op == "Lock" || op == "RLock") && strings.HasSuffix(path, ".mutex")
+			}))
+			for _, ip := range invocations {
+				if h := held(ip); h[mu] > 0 {
+					bad = append(bad, fmt.Sprintf("%s: the registered callbacks are invoked while holding %s: a callback that registers, unsubscribes or triggers on this event dead-locks, and registrations block until all callbacks have finished", f.PosOf(ip), h))
+				}
+				if tg.inOnce {
+					bad = append(bad, fmt.Sprintf("%s: the registered callbacks are invoked inside sync.Once.Do, which is not re-entrant: a callback that triggers this event again dead-locks, and every concurrent Trigger blocks until all callbacks have finished", f.PosOf(ip)))
 				}
 			}
 		}
-		if t != "Event" {
-			for _, vp := range f.Find(isValueStore) {
-				if held(vp)[mu] < ModeW {
-					bad = append(bad, f.PosOf(vp)+": the triggered value is stored outside the exclusive section")
-				}
-			}
+		switch {
+		case nSnaps == 0:
+			bad = append([]string{"no locked snapshot section that swaps the callback map"}, bad...)
+		case nSwaps == 0:
+			bad = append([]string{"Trigger never swaps the callback map for nil"}, bad...)
+		case nInv == 0:
+			bad = append([]string{"the registered callbacks are never invoked (vacuous)"}, bad...)
 		}
-		// one critical section: snapshot, swap and value belong together
-		nAcq := len(f.Find(func(n ast.Node) bool {
-			c, ok := n.(*ast.CallExpr)
-			if !ok {
-				return false
-			}
-			op, path := lockOp(info, c)
-			return (op == "Lock" || op == "RLock") && strings.HasSuffix(path, ".mutex")
-		}))
 		if nAcq != 1 && len(bad) == 0 {
 			bad = append(bad, fmt.Sprintf("%d acquisitions of the event mutex in Trigger: snapshot and swap must be one critical section", nAcq))
-		}
-		for _, ip := range invocations {
-			if h := held(ip); h[mu] > 0 {
-				bad = append(bad, fmt.Sprintf("%s: the registered callbacks are invoked while holding %s: a callback that registers, unsubscribes or triggers on this event dead-locks, and registrations block until all callbacks have finished", f.PosOf(ip), h))
-			}
 		}
 		if len(bad) > 0 {
 			r.Fail("promise/swap-and-call-outside", key, p.posStr(fd.Pos()), bad[0], bad...)
